@@ -1,5 +1,7 @@
 import FlVerif.Lemmas.PyTables
 import FlVerif.Lemmas.CodeRepr
+import FlVerif.Lemmas.CodePyExportRepr
+import FlVerif.Lemmas.CodePyExportObject
 
 /-! # C15 — Python export reconstructs an identical engine
 
@@ -15,8 +17,14 @@ never / conditionally passed, the probed condition) and the class → module tab
 every run; the side conditions on them are discharged by evaluation in the kernel (`decide`), so an edit that makes
 a `__repr__` drop a field whose default differs re-opens the obligation.
 
+The text level (`Op/PyExport.lean`: `render` of a call tree, `importStatement`, `encapsulate`, `exportText`) is tied to
+the code by the `code_*` theorems below: prefix (`package_of`), import statement, `as_constructor`, the dispatch of
+`repr` on the type name, `repr_float`, `repr_ndarray`, the `__repr__` of `Rule` / `RuleBlock` / `Variable` /
+`OutputVariable`, and the wrapper of `PythonExporter`.
+
 Outside these theorems (carried by the correspondence): the leaf texts `repr(float)` / `repr(str)`, executing the
-source, `black`, the `class` / `def create()` wrapper of `PythonExporter.encapsulate`, bit-identical outputs. -/
+source, `black`, bit-identical outputs; the elision limits of `reprlib` (`maxlevel` 10 for directly nested lists,
+6·10⁶ elements, 3·10⁷ characters of a string or of a nested object's text), beyond which the library prints `...`. -/
 
 namespace C15
 open Op.PyRepr Op.FllIO Dec Spec.Fll
@@ -48,6 +56,158 @@ theorem code_constructionArguments (noInit : Bool) (sig : List Param) (fields : 
     | some args => ∃ σ, Gen.Code.construction_arguments.run noInit sig fields positional {} = .ok σ ∧
         σ.ret = some (args.map argText) :=
   Op.PyRepr.code_constructionArguments noInit sig fields positional
+
+/-! ## Tie A (code → model) for the text of the representation and the exporter
+
+`Gen.Code.*` below are regenerated from the source on every run (`fv/pylean.py`, profiles `fv/profiles/pyexport.py`);
+the text of a constructor-call tree is `Op.PyRepr.render` (`Op/PyExport.lean`), CPython's leaf texts are the fields
+of `Leaf`. -/
+
+/-- `Representation.package_of` (`modname` = the name of `inspect.getmodule(x)`, `none` = no module): the model
+    `packageOf` for every alias and every module name -/
+theorem code_packageOf (al : String) (modname : Option String) :
+    ∃ σ, Gen.Code.package_of.run al modname {} = .ok σ ∧ σ.ret = some (packageOfOpt al modname) :=
+  Op.PyRepr.code_packageOf al modname
+
+/-- `Representation.import_statement` -/
+theorem code_importStatement (al : String) :
+    Gen.Code.import_statement.run al {} = .ok { ret := some (importStatement al) } :=
+  Op.PyRepr.code_importStatement al
+
+/-- `Representation.as_constructor`: with the callee `construction_arguments` = the model `emit` (tied above), the
+    text is prefix, class name and the comma-separated arguments in parentheses – `ValueError` when `emit` fails.
+    This is `render` of a call node (`render_call`). -/
+theorem code_asConstructor (noInit : Bool) (sig : List Param) (fields : String → Option String) (positional : Bool)
+    (al : String) (modname : Option String) (cls : String) :
+    match emit fields positional (if noInit then [] else notSelf sig) with
+    | none => Gen.Code.as_constructor.run noInit sig fields positional al modname cls {} = .error .value
+    | some args => Gen.Code.as_constructor.run noInit sig fields positional al modname cls {} =
+        .ok { arguments := args.map argText,
+              ret := some (packageOfOpt al modname ++ cls ++ "(" ++ ", ".intercalate (args.map argText) ++ ")") } :=
+  Op.PyRepr.code_asConstructor noInit sig fields positional al modname cls
+
+/-- the text of a call node is what `as_constructor` returns for its prefix, class and rendered arguments -/
+theorem render_call (L : Leaf) (pfx cls : String) (kws : List (Option String)) (kids : List Src) :
+    Op.PyRepr.render L (.node (.call pfx cls kws) kids) =
+      pfx ++ cls ++ "(" ++ ", ".intercalate ((kws.zip (renderList L kids)).map argText) ++ ")" := by
+  simp [Op.PyRepr.render]
+
+/-- **the text the code prints for an object is the rendered model tree.**  `textFields` = for every field the
+    `__repr__` of the class passes on (`passed`, tied for `RuleBlock` / `Variable` / `OutputVariable` below), the text
+    `self.repr` gives for its value, assumed to be the rendered model tree of that value (the recursion goes through
+    `repr1`, `repr_instance` and the `__repr__` of the field); then the translated `as_constructor` (with
+    `construction_arguments` = `emit`, `package_of` = `packageOf`) returns `render (asConstructor env obj)`, and raises
+    `ValueError` exactly where the model tree is `invalid` -/
+theorem code_reprObject (L : Leaf) (env : Env) (cls : String) (names : List String) (kids : List Val) (sig ps : List Param)
+    (info : ReprInfo) (hp : paramsOf cls = some ps) (hi : reprInfoOf cls = some info)
+    (hu : info.cond.any (fun c => c.2 == .unknown) = false) (hsig : notSelf sig = ps) :
+    match emit (textFields L env ps info names kids) info.positional ps with
+    | some _ => ∃ σ, Gen.Code.as_constructor.run false sig (textFields L env ps info names kids) info.positional env.aliasName
+          (some (moduleOf cls)) cls {} = .ok σ ∧ σ.ret = some (reprText L env (.node (.obj cls names) kids))
+    | none => Gen.Code.as_constructor.run false sig (textFields L env ps info names kids) info.positional env.aliasName
+          (some (moduleOf cls)) cls {} = .error .value ∧ asConstructor env (.node (.obj cls names) kids) = .atom .invalid :=
+  Op.PyRepr.code_reprObject L env cls names kids sig ps info hp hi hu hsig
+
+/-- `Representation.repr` (inherited from `reprlib.Repr`): `repr1` at the level `maxlevel` (10, read from the live
+    `representation` object) -/
+theorem code_repr (rec1 : Val → Int → Py.M String) (x : Val) :
+    Gen.Code.Representation_repr.run rec1 x {} = (rec1 x 10 >>= fun s => .ok { ret := some s }) :=
+  Op.PyRepr.code_repr rec1 x
+
+/-- `Representation.repr1` (inherited): the dispatch on `type(x).__name__` over the `repr_*` attributes that
+    `Representation` has now (regenerated into the code): floats of every width go to `Representation.repr_float`,
+    arrays to `Representation.repr_ndarray`, `int` / `str` / `list` / `dict` to the methods of `reprlib`, everything
+    else (`bool`, `None`, enumerations, rules, objects of the library) to `repr_instance`, i.e. to its own `__repr__`.
+    `TypeName tn x`: `tn` names the types as CPython / NumPy do; for the last group only that the name has no blank and
+    is not the suffix of a `repr_*` attribute (`classes_of_tables_plain`). -/
+theorem code_repr1 (C : String → Val → Int → Py.M String) (tn : Val → String) (x : Val) (level : Int)
+    (h : TypeName tn x) :
+    Gen.Code.Representation_repr1.run C tn x level {} =
+      (C (methodOf x) x level >>= fun s => .ok { typename := tn x, ret := some s }) :=
+  Op.PyRepr.code_repr1 C tn x level h
+
+/-- the class names of the regenerated tables (and `bool`, `NoneType`, `Rule`, the enumeration `Type`) satisfy the
+    side condition of `code_repr1` -/
+theorem classes_of_tables_plain :
+    (Gen.ExportTables.classModule.all (fun p => plainClassB p.1) &&
+      ["bool", "NoneType", "Rule", "Type"].all plainClassB) = true :=
+  table_classes_plain
+
+/-- `Representation.repr_float`: the text of the model's literal – `nan` / `inf` with the prefix of the `settings`
+    object, `-` before the prefix for `-inf`, CPython's `repr` otherwise -/
+theorem code_reprFloat (env : Env) (L : Leaf) (x : Num) (level : Int) :
+    ∃ σ, Gen.Code.repr_float.run env L x level {} = .ok σ ∧ σ.ret = some (reprText L env (.atom (.num x))) :=
+  Op.PyRepr.code_reprFloat env L x level
+
+/-- `Representation.repr_ndarray` for an array with rows: when `repr1` gives the model's text for every row, the
+    result is the model's text for the array -/
+theorem code_reprNdarray (env : Env) (L : Leaf) (rec1 : Val → Int → Py.M String) (item : Val) (kids : List Val) (level : Int)
+    (hrec : ∀ y ∈ kids, rec1 y level = .ok (reprText L env y)) :
+    ∃ σ, Gen.Code.repr_ndarray.run env rec1 false item (.node .array kids) level {} = .ok σ ∧
+      σ.ret = some (reprText L env (.node .array kids)) :=
+  Op.PyRepr.code_reprNdarray env L rec1 item kids level hrec
+
+/-- … and a zero-dimensional array is represented as its item -/
+theorem code_reprNdarray0 (env : Env) (rec1 : Val → Int → Py.M String) (item x : Val) (level : Int) :
+    Gen.Code.repr_ndarray.run env rec1 true item x level {} = (rec1 item level >>= fun s => .ok { ret := some s }) :=
+  Op.PyRepr.code_reprNdarray0 env rec1 item x level
+
+/-- `Rule.__repr__`: the text of the model's rule leaf (`L.rule toks` = `Rule.text`) -/
+theorem code_reprRule (env : Env) (L : Leaf) (toks : List Tok) :
+    Gen.Code.Rule_repr.run env (L.rule toks) {} = .ok { ret := some (renderAtom L (.rule (classPrefix env "Rule") toks)) } :=
+  Op.PyRepr.code_reprRule env L toks
+
+/-- `RuleBlock.__repr__` (`vars` = `vars(self)` as the list of its items, `asCtor` = `representation.as_constructor`):
+    the call gets the positional flag of the probed table and a dictionary whose entries are the fields the model
+    passes on (`passed`: `description` unless empty, `enabled` unless true) – for every state of the block -/
+theorem code_reprRuleBlock (env : Env) (asCtor : List (String × Val) → Bool → Py.M String) (vars : List (String × Val))
+    (d : String) (e : Bool)
+    (hd : vars.lookup "description" = some (.atom (.str d))) (he : vars.lookup "enabled" = some (.atom (.bool e)))
+    (ps : List Param) (info : ReprInfo) (hp : paramsOf "RuleBlock" = some ps) (hi : reprInfoOf "RuleBlock" = some info) :
+    ∃ fields, Gen.Code.RuleBlock_repr.run asCtor vars d e {} =
+        (asCtor fields info.positional >>= fun s => .ok { fields := fields, ret := some s }) ∧
+      ∀ n, fields.lookup n = passed env ps info vars n :=
+  Op.PyRepr.code_reprRuleBlock env asCtor vars d e hd he ps info hp hi
+
+/-- `Variable.__repr__`: as for the rule block, `_value` is never passed -/
+theorem code_reprVariable (env : Env) (asCtor : List (String × Val) → Bool → Py.M String) (vars : List (String × Val))
+    (d : String) (e : Bool) (v : Val)
+    (hd : vars.lookup "description" = some (.atom (.str d))) (he : vars.lookup "enabled" = some (.atom (.bool e)))
+    (hv : vars.lookup "_value" = some v)
+    (ps : List Param) (info : ReprInfo) (hp : paramsOf "Variable" = some ps) (hi : reprInfoOf "Variable" = some info) :
+    ∃ fields, Gen.Code.Variable_repr.run asCtor vars d e {} =
+        (asCtor fields info.positional >>= fun s => .ok { fields := fields, ret := some s }) ∧
+      ∀ n, fields.lookup n = passed env ps info vars n :=
+  Op.PyRepr.code_reprVariable env asCtor vars d e v hd he hv ps info hp hi
+
+/-- `OutputVariable.__repr__`: the state is `vars(self)` with what the properties `minimum`, `maximum`,
+    `aggregation` return; `fuzzy`, `_value`, `previous_value` are never passed -/
+theorem code_reprOutputVariable (env : Env) (asCtor : List (String × Val) → Bool → Py.M String) (vars : List (String × Val))
+    (d : String) (e : Bool) (mn mx ag v1 v2 v3 : Val)
+    (hd : vars.lookup "description" = some (.atom (.str d))) (he : vars.lookup "enabled" = some (.atom (.bool e)))
+    (hf : vars.lookup "fuzzy" = some v1) (hv : vars.lookup "_value" = some v2) (hpv : vars.lookup "previous_value" = some v3)
+    (ps : List Param) (info : ReprInfo) (hp : paramsOf "OutputVariable" = some ps) (hi : reprInfoOf "OutputVariable" = some info) :
+    ∃ fields, Gen.Code.OutputVariable_repr.run asCtor vars d e mn mx ag {} =
+        (asCtor fields info.positional >>= fun s => .ok { fields := fields, ret := some s }) ∧
+      ∀ n, fields.lookup n = passed env ps info (withProperties vars mn mx ag) n :=
+  Op.PyRepr.code_reprOutputVariable env asCtor vars d e mn mx ag v1 v2 v3 hd he hf hv hpv ps info hp hi
+
+/-- `PythonExporter.encapsulate`: import statement, then the class (an engine) or the function `create()` -/
+theorem code_encapsulate (al : String) (isEngine : Bool) (ident qual text : String) :
+    ∃ σ, Gen.Code.PythonExporter_encapsulate.run al isEngine ident qual text {} = .ok σ ∧
+      σ.ret = some (encapsulate al isEngine ident qual text) :=
+  Op.PyRepr.code_encapsulate al isEngine ident qual text
+
+/-- `PythonExporter.to_string`: the wrapped or the plain text, through `format` (`black`) when `formatted` -/
+theorem code_toString (encapsulated formatted : Bool) (fmt : String → Py.M String) (wrapped text : String) :
+    Gen.Code.PythonExporter_to_string.run encapsulated formatted fmt wrapped text {} =
+      (exportText encapsulated formatted fmt wrapped text >>= fun s => .ok { code := s, ret := some s }) :=
+  Op.PyRepr.code_toString encapsulated formatted fmt wrapped text
+
+/-- `PythonExporter.engine` is `to_string` -/
+theorem code_engine (toString : Py.M String) :
+    Gen.Code.PythonExporter_engine.run toString {} = (toString >>= fun s => .ok { ret := some s }) :=
+  Op.PyRepr.code_engine toString
 
 /-- binding the emitted arguments (positional prefix, then keywords) against the signature gives, for every
     stored parameter, the emitted field and otherwise the constructor default -/
@@ -85,14 +245,32 @@ theorem eval_repr (env : Env) (v : Val) (hr : RulesOK v) (hv : NoInvalid (asCons
     gives for the alias setting and the module of the class -/
 theorem prefix_everywhere (env : Env) (v : Val) : PrefixOK env (asConstructor env v) := prefix_asConstructor env v
 
-/-- the three alias regimes: `''` = the module path, `'*'` = no prefix, anything else = the alias (for the
-    modules of the library) -/
-theorem prefix_of_alias (m : String) :
+/-- the alias regimes for a module name that is not empty, has no trailing dot and is not below `fuzzylite.examples`
+    (`modules_of_tables_plain`: the modules of the regenerated class table are such): `''` = the module path, `'*'` = no
+    prefix, anything else = the alias (one dot added unless the alias ends in one) for the modules of the library.
+    Outside these conditions `package_of` behaves otherwise (found by the tie `code_packageOf`: an empty prefix gets no
+    dot, a prefix that ends in a dot no second one, a module below `fuzzylite.examples` keeps its path after the alias). -/
+theorem prefix_of_alias (m : String) (hm : ModuleOK m = true) :
     packageOf "" m = m ++ "." ∧ packageOf "*" m = "" ∧
-    ∀ al, al ≠ "" → al ≠ "*" → m.startsWith "fuzzylite." = true → packageOf al m = al ++ "." := by
-  refine ⟨by simp [packageOf], by simp [packageOf], ?_⟩
-  intro al h1 h2 h3
-  simp [packageOf, h1, h2, h3]
+    ∀ al, al ≠ "" → al ≠ "*" → al.endsWith "." = false → m.startsWith "fuzzylite." = true → packageOf al m = al ++ "." := by
+  refine ⟨by rw [packageOf_plain _ _ hm]; simp, by rw [packageOf_plain _ _ hm]; simp, ?_⟩
+  intro al h1 h2 h3 h4
+  rw [packageOf_plain _ _ hm]
+  simp [h1, h2, h3, h4]
+
+/-- the modules of the regenerated class table and the module of `settings` satisfy the condition of `prefix_of_alias` -/
+theorem modules_of_tables_plain :
+    (Gen.ExportTables.classModule.all (fun p => ModuleOK p.2) && ModuleOK Gen.ExportTables.settingsModule) = true :=
+  table_modules_ok
+
+/-- a module below `fuzzylite.examples` keeps its path below `fuzzylite` after a non-empty alias – also after `'*'`,
+    where the prefix then starts with a dot (`.examples.mamdani.x.`: not an importable path) -/
+theorem prefix_of_examples :
+    packageOf "fl" "fuzzylite.examples.mamdani.x" = "fl.examples.mamdani.x." ∧
+    packageOf "*" "fuzzylite.examples.mamdani.x" = ".examples.mamdani.x." ∧
+    packageOf "" "fuzzylite.examples.mamdani.x" = "fuzzylite.examples.mamdani.x." ∧
+    packageOf "fl." "fuzzylite.term" = "fl." ∧ packageOf "fl." "fuzzylite.examples.mamdani.x" = "fl..examples.mamdani.x." := by
+  decide +kernel
 
 /-- `repr (eval (repr o)) = repr o` for objects that carry their constructor parameters -/
 theorem repr_fixed_point (env : Env) (h0 : 0 ≤ env.cfg.tol) (v : Val) (hc : Complete v) (hr : RulesOK v)
